@@ -11,13 +11,14 @@ from .state import Unsupported, ContractError, PathEnd, ReturnSig, RaiseSig, Bre
 
 
 class LoopSpec(object):
-    def __init__(self, inv=(), modifies=None, havoc=None, havoc_attrs=(), note=''):
+    def __init__(self, inv=(), modifies=None, havoc=None, havoc_attrs=(), note='', ghost=None):
         self.inv = [inv] if isinstance(inv, str) else list(inv)
         self.modifies = modifies or {}      # expression text -> T or None
         if isinstance(self.modifies, (list, tuple)):
             self.modifies = dict((m, None) for m in self.modifies)
         self.havoc = havoc or {}            # local name -> T
         self.havoc_attrs = list(havoc_attrs)
+        self.ghost = ghost or {}            # name -> expression evaluated (and frozen) at loop entry
         self.note = note
 
 
@@ -158,7 +159,8 @@ class Loops(object):
         kind, data = self._iteration_model(I, ctx, itv, node)
 
         def ghosts(done, idx, rest=None, extra=None):
-            g = {'_i': VInt(idx)}
+            g = dict(entry_ghosts)
+            g['_i'] = VInt(idx)
             if done is not None:
                 g['_done'] = done
             if rest is not None:
@@ -167,6 +169,14 @@ class Loops(object):
             return g
 
         entry = (ctx.snapshot_heap(), dict(fr.locals), dict(ctx.attr))
+        entry_ghosts = {}
+        for gname, gexpr in spec.ghost.items():
+            gfr = self.engine.spec_frame(fr, {})
+            ctx.no_branch = getattr(ctx, 'no_branch', 0) + 1
+            try:
+                entry_ghosts[gname] = self.engine.freeze(ctx, I.ev(ctx, gfr, ast.parse(gexpr, mode='eval').body))
+            finally:
+                ctx.no_branch -= 1
 
         def check_inv(tag, g):
             sfr = self.engine.spec_frame(fr, g)
@@ -411,6 +421,26 @@ class Loops(object):
                 q = None
             raise Unsupported('comprehension over %r' % (itv,), node)
         z, et = q
+        # memo: the result depends only on the iterated term, the comprehension node, the
+        # attribute heap and the free locals the body mentions
+        free = []
+        for nme in sorted(set(n.id for n in ast.walk(node) if isinstance(n, ast.Name))):
+            v = fr.lookup(nme)
+            free.append((nme, v.z.get_id() if hasattr(v, 'z') and z3.is_expr(getattr(v, 'z', None)) else
+                         (('rid', v.rid, id(ctx.heap.get(v.rid))) if isinstance(v, VRef) else id(v))))
+        mkey = (id(node), kind, z.get_id(), tuple(sorted((k, a.get_id()) for k, a in ctx.attr.items())), tuple(free), fr.spec)
+        memo = self.engine.comp_memo.get(mkey)
+        if memo is not None and not any(isinstance(fr.lookup(nme), VRef) for nme, _ in free):
+            cols, is_tuple, facts, infos = memo[1]
+            for f_ in facts:
+                ctx.assume(f_)
+            ctx.comp_info = getattr(ctx, 'comp_info', {})
+            ctx.comp_info.update(infos)
+            # re-create attribute arrays the body reads (they are created lazily)
+            for k_, a_ in memo[2].items():
+                ctx.attr.setdefault(k_, a_)
+            return self._finish_comp(ctx, fr, kind, cols, is_tuple)
+        attr_keys_before = set(ctx.attr.keys())
         xv = z3.Const('comp!x', et.zsort)
         cfr = Frame(fr.module, fr.qualname, {}, parent=fr, cls=fr.cls, spec=True)
         cfr.selfv = fr.selfv
@@ -431,16 +461,28 @@ class Loops(object):
         del ctx.pc[saved_pc:]
         comps = eltv.items if isinstance(eltv, VTuple) else [eltv]
         cols = []
+        infos = {}
         for c in comps:
             ct, cz = self._embed(I, ctx, c, node)
             fm = self.filter_map(et.zsort, ct.zsort, xv, cond, cz)
             out = fm(z)
-            ctx.comp_info = getattr(ctx, 'comp_info', {})
-            ctx.comp_info[str(out)] = (z, et, xv, cond, cz, ct)
+            infos[out.get_id()] = (z, et, xv, cond, cz, ct, out)
             cols.append(VSeq(out, ct))
+        ctx.comp_info = getattr(ctx, 'comp_info', {})
+        ctx.comp_info.update(infos)
+        facts = []
         if isinstance(eltv, VTuple):
             for c in cols[1:]:
-                ctx.assume(z3.Length(c.z) == z3.Length(cols[0].z))
+                facts.append(z3.Length(c.z) == z3.Length(cols[0].z))
+        for f_ in facts:
+            ctx.assume(f_)
+        new_attrs = dict((k, a) for k, a in ctx.attr.items() if k not in attr_keys_before)
+        self.engine.comp_memo[mkey] = (node, (cols, isinstance(eltv, VTuple), facts, infos), new_attrs)
+        return self._finish_comp(ctx, fr, kind, cols, isinstance(eltv, VTuple))
+
+    def _finish_comp(self, ctx, fr, kind, cols, is_tuple):
+        from . import models as M
+        if is_tuple:
             return VZip(cols)
         if kind == 'set':
             return ctx.alloc(HSet(M.elems_of(cols[0].z), cols[0].et))
